@@ -51,6 +51,7 @@ func runC15(c *hx.Ctx) {
 		resumeOrder(o, c, w)
 	}
 	wrapResend(o, c)
+	takeoverOrder(o, c)
 	slowFirstPublish(o, c)
 	publisherResume(o, c)
 	endToEnd(o, c)
